@@ -1,6 +1,8 @@
 //! C10: a real `Scheduler` with a virtual clock.
 //! ops: sub <prog> <prio> | pass | adv <ns> | cancel <k> | res <k>
 //!   prog steps: K<j> (the body asks to cancel coroutine j, possibly itself) | S | U<ts> | Y<ts> (hooked-wait pattern: syscall Suspend(ts) + until(ts), then back to running) | P<k> | R<r>
+//!   a leading `eq` op marks a case in which several coroutines share one wake-up time: the order among them is
+//!   unspecified (BinaryHeap), so `resumed=` is printed sorted for the whole case
 //! outs: sub → `id<k>` ; pass → `resumed=<k.k.k> results=<k:Ok(r),k:Err(m)>` ; others → `-`
 use crate::rng::Rng;
 use open_coroutine_core::common::constants::{SyscallName, SyscallState};
@@ -10,6 +12,24 @@ use std::cell::RefCell;
 use std::rc::Rc;
 
 pub fn gen(r: &mut Rng, thorough: bool) -> String {
+    if r.chance(1, 6) {
+        // several coroutines parked until the same instant (a common deadline), some through the syscall path
+        let t = 1000 + r.range(1, 500) * 100;
+        let g = r.range(2, 5);
+        let mut ops = vec!["eq".to_string()];
+        for j in 0..g {
+            let kind = if r.chance(1, 4) { "Y" } else { "U" };
+            let second = if r.chance(1, 3) { format!(",U{}", t + 7000) } else { String::new() };
+            ops.push(format!("sub {kind}{t}{second},R{} 0", j + 1));
+        }
+        ops.push("pass".into());
+        if r.chance(1, 2) { ops.push(format!("adv {}", r.range(1, 50))); ops.push("pass".into()); }
+        ops.push(format!("adv {}", t));
+        ops.push("pass".into());
+        ops.push("adv 100000000000".into());
+        ops.push("pass".into());
+        return ops.join(" | ");
+    }
     let n = if thorough { r.range(4, 40) } else { r.range(3, 16) };
     let mut ops = Vec::new();
     let mut nsub = 0u64;
@@ -52,9 +72,11 @@ pub fn exec(body: &str, emit: &mut dyn FnMut(&str)) {
     let resumed: Rc<RefCell<Vec<usize>>> = Default::default();
     let mut ids: Vec<u64> = Vec::new();
     let shared_ids: Rc<RefCell<Vec<u64>>> = Default::default();
+    let mut sort_resumed = false;
     for op in body.split(" | ") {
         let t: Vec<&str> = op.split_whitespace().collect();
         let out = match t.as_slice() {
+            ["eq"] => { sort_resumed = true; "-".into() }
             ["sub", prog, prio] => {
                 let k = ids.len();
                 let steps: Vec<String> = prog.split(',').map(String::from).collect();
@@ -100,6 +122,7 @@ pub fn exec(body: &str, emit: &mut dyn FnMut(&str)) {
                             (k, match r { Ok(Some(v)) => format!("{k}:Ok({v})"), Ok(None) => format!("{k}:Ok(none)"), Err(m) => format!("{k}:Err({})", m.replace(' ', "_")) })
                         }).collect();
                         rs.sort();
+                        if sort_resumed { resumed.borrow_mut().sort(); }
                         format!("resumed={} results={}", resumed.borrow().iter().map(|x| x.to_string()).collect::<Vec<_>>().join("."), rs.into_iter().map(|x| x.1).collect::<Vec<_>>().join(","))
                     }
                     Err(_) => "passerr".into(),
